@@ -42,6 +42,9 @@ pub fn check_prog(prog: &[MStmt], layout: &[StmtLayout], text: &str, t: &mut Tap
     if model.labels.is_empty() {
         st.class("no-labels");
     }
+    if prog.iter().any(|s| matches!(s.kind, MKind::External(_)) && !s.labels.is_empty()) {
+        st.class("label-on-external-line");
+    }
     let mut case_differs = false;
     for (name, info) in &model.labels {
         // the spelling of the first occurrence in the source
@@ -123,14 +126,14 @@ pub fn describe(tape: &[u32]) -> Value {
 
 pub fn run(ctx: &Ctx) -> Outcome {
     let mut out = Outcome::new(
-        "well-formed generated programs with mixed-case ASCII labels (repeated labels on one address, labels on .end, external declarations) assembled with debug symbols; \
+        "well-formed generated programs with mixed-case ASCII labels (repeated labels on one address, labels on .end and on .external lines inside a block, external declarations) assembled with debug symbols; \
          for every label x {original, upper, lower, 2 random case flips}: lookup_label == model address, get_label_source == span of first occurrence, rev_lookup_label in labels at that address; \
          label_iter == model set; absent names/addresses give None; non-trivial = a queried spelling differs in case from the definition; distinct by statement list",
     );
     let cfg = TapeCfg::new(ctx, 4000, 100_000, 2500);
     out.shards = cfg.shards;
     out.absorb(tape_search(ctx, "main", &cfg, check, describe));
-    out.essential = vec!["case-differs".into(), "external-label".into(), "repeated-label".into()];
+    out.essential = vec!["case-differs".into(), "external-label".into(), "repeated-label".into(), "label-on-external-line".into()];
     out.forbidden = vec!["generator-illformed".into(), "generator-unconstructible".into()];
     out
 }
